@@ -6,6 +6,8 @@
 (* length of a sleep:                                                         *)
 (*  - while the call is inside SendFunc (the driver holds SendFunc),          *)
 (*  - right after SendFunc returned, before any logical time passed,          *)
+(*  - (Stagger) half a logical tick after an instant, by the driver's clock,   *)
+(*    while the call's own timer has at least a full tick left,               *)
 (*  - when the addressed call can no more be pending (it returned; for a      *)
 (*    "late" reply: the command's callback value has been delivered), or was  *)
 (*    never going to be (foreign id, sender that is nobody's target).         *)
@@ -13,6 +15,15 @@
 (* command), a behaviour vector (one behaviour per (command, target)) and an  *)
 (* arrival order of the replies relative to sends, timeouts and callbacks.    *)
 EXTENDS CmdServent
+
+CONSTANT Stagger   \* "off" | "any" | "gap".  Not "off": family "staggered deadlines" - some SendFunc is slow
+                   \* (the response windows of the targets of one command differ) and replies are also
+                   \* placed by the driver's clock, half a tick after a logical instant.  "gap": the reply
+                   \* to a slow send arrives only after a sibling target has timed out (and before its
+                   \* own deadline, or else when its call is gone)
+Staggered == Stagger # "off"
+\* a sibling call of the same command has run into its timeout
+SiblingTimedOut(o) == \E t \in tg[o[1]] : t # o[2] /\ result[<<o[1], t>>].k = "timeout"
 
 MsgOf(c, t, k) == {m \in net : m.tok = <<c, t, k>>}
 
@@ -27,15 +38,22 @@ Imposable(m) ==
   /\ (beh[org] = "fastreply" => pc[org] = "sending")
   /\ IF k \in DOMAIN pending
        THEN LET o == pending[k] IN
-            \/ pc[o] = "sending"
-            \/ pc[o] = "waiting" /\ deadline[o] = clock + TO
+            \/ pc[o] = "sending" /\ ~(Stagger = "gap" /\ SlowSend(beh[o]))
+            \/ pc[o] = "waiting" /\ deadline[o] = clock + TO /\ ~(Stagger = "gap" /\ SlowSend(beh[o]))
+            \* by the clock: everything the implementation does at this instant is done (timers of
+            \* this instant fired and unregistered), the call's own timer still has a full tick to run
+            \/ /\ Staggered /\ pc[o] = "waiting" /\ clock < deadline[o] /\ ~SysEnabled
+               /\ (Stagger = "gap" /\ SlowSend(beh[o])) => SiblingTimedOut(o)
        ELSE IF IsCall(Addressee(m)) THEN pc[Addressee(m)] = "ret" ELSE TRUE
 
 G_Enqueue(c) == Enqueue(c)
 G_BeginCommit(c) == BeginCommit(c)
 G_Register(c, t) == Register(c, t)
 G_SendBegin(c, t, b) == SendBegin(c, t, b)
-G_SendEnd(c, t) == (beh[<<c, t>>] = "fastreply" => Emits(c, t, "fastreply") \cap net = {}) /\ SendEnd(c, t)
+\* (Stagger: a slow SendFunc returns at a later logical instant than the one it was entered at)
+G_SendEnd(c, t) == /\ (beh[<<c, t>>] = "fastreply" => Emits(c, t, "fastreply") \cap net = {})
+                   /\ ((Staggered /\ SlowSend(beh[<<c, t>>])) => clock > began[c] \/ ~ENABLED Tick)
+                   /\ SendEnd(c, t)
 G_DoneRecv(c, t) == DoneRecv(c, t)
 G_Timeout(c, t) == Timeout(c, t)
 G_Unreg(c, t) == Unreg(c, t)
